@@ -12,7 +12,8 @@ data set has an active CMT column:
     in-memory model imply, with n in the numbering of the generated code.
 Bound: 3 start models (bolus ADVAN1, oral ADVAN2, oral ADVAN4 with a peripheral compartment), then 2 more (oral
 ADVAN2 whose data set also has a RATE column that is 0 on all records, oral ADVAN2 that already has ALAG1 and F1),
-every sequence of <=1 (quick) / <=2 (thorough) of the structural transformations of contracts/b_nm.py."""
+every sequence of <=1 (quick) / <=2 (thorough) of the structural transformations of contracts/b_nm.py; in the quick
+tier also all ordered pairs of the transformations that add or remove compartments from the first 3 start models."""
 import os
 import re
 import warnings
@@ -179,7 +180,17 @@ def _jobs(tier):
     seqs = [[]] + [[a] for a in names]
     if tier == 'thorough':
         seqs += [[a, b] for a in names for b in names]
-    return [(s, q) for s in STARTS for q in seqs]
+    jobs = [(s, q) for s in STARTS for q in seqs]
+    # added later (appended): two transformations that add or remove compartments, one after the other; the second
+    # one renumbers compartments (and CMT values) that the first one has already renumbered
+    from contracts.b_nm import _RENUMBERING
+
+    for s in list(STARTS)[:3]:
+        for a in _RENUMBERING:
+            for b in _RENUMBERING:
+                if (s, [a, b]) not in jobs:
+                    jobs.append((s, [a, b]))
+    return jobs
 
 
 def bounded_cmt_columns(tier='quick'):
@@ -208,7 +219,9 @@ def bounded_cmt_columns(tier='quick'):
         'cases': len(jobs), 'nontrivial': nontrivial,
         'bound': f'{len(STARTS)} start models with an active CMT column (bolus ADVAN1, oral ADVAN2, oral ADVAN4; oral '
                  f'ADVAN2 with a RATE column that is 0 on all records; oral ADVAN2 with ALAG1 and F1) x '
-                 f'sequences of <={2 if tier == "thorough" else 1} structural transformations of contracts/b_nm.py',
+                 f'sequences of <={2 if tier == "thorough" else 1} structural transformations of contracts/b_nm.py'
+                 + ('' if tier == 'thorough' else '; plus, from the first 3 start models, all 64 ordered pairs of the 8 '
+                    'transformations that add or remove compartments (absorption, transit, peripheral compartments)'),
         'samples': [str(jobs[1]), str(jobs[len(jobs) // 2])],
         'fails': sorted(fails.values(), key=lambda f: (f['fid'], f['clause'])),
     }
